@@ -7,7 +7,7 @@ import pickle
 from ..cfg import CFG
 from ..engine import AnalysisError, MechanismMissing, PropertySpec, norm
 from ..pyutil import call_name, calls, const_str, is_name, walk_local
-from ._api import API
+from ._api import API, api_fn
 from .c01 import covers, handler_classes
 
 SPEC = PropertySpec(
@@ -28,7 +28,7 @@ NEED = [EOFError, pickle.UnpicklingError]
 
 
 def _atomic(ctx, R):
-    fn = ctx.func(API, "save_model", R)
+    fn = api_fn(ctx, "save_model", R)
     final_vars = {s.targets[0].id for s in walk_local(fn) if isinstance(s, ast.Assign) and isinstance(s.targets[0], ast.Name)
                   and ".pymoca_cache" in norm(s.value)}
     opens_final = []
@@ -53,7 +53,7 @@ def r21_1(ctx, rep):
     atomic, opens_final, found = _atomic(ctx, R)
     if not found:
         raise MechanismMissing(R, "cache file path (… + '.pymoca_cache') not found in save_model")
-    fn = ctx.func(API, "load_model", R)
+    fn = api_fn(ctx, "load_model", R)
     cfg = CFG(fn, R)
     loads = [x for x in cfg.stmts() if any(call_name(c) == "pickle.load" for c in calls(x.ast))]
     if not loads:
@@ -84,7 +84,7 @@ def r21_1(ctx, rep):
            "half-written cache file makes every later transfer_model raise instead of recompiling" % (opens_final, missing_all))
     rep.extra["R21.1_discipline"] = {"atomic_publish": atomic, "total_loader": total}
     # advisory
-    sv = ctx.func(API, "save_model", R)
+    sv = api_fn(ctx, "save_model", R)
     for w in ast.walk(sv):
         if isinstance(w, ast.With) and any("open(" in norm(i.context_expr) for i in w.items):
             heavy = [norm(c)[:50] for s in w.body for c in calls(s) if call_name(c) in ("ca.depends_on", "ca.symvar")]
@@ -162,7 +162,7 @@ def _only_raises(body) -> bool:
 @SPEC.rule("R21.2", "the conversion target reaches the recompile: InvalidCacheError is in the except tuple around load_model in transfer_model, whose handler compiles and saves")
 def r21_2(ctx, rep):
     R = "R21.2"
-    fn = ctx.func(API, "transfer_model", R)
+    fn = api_fn(ctx, "transfer_model", R)
     ok = False
     for t in ast.walk(fn):
         if isinstance(t, ast.Try) and any(call_name(c) == "load_model" for s in t.body for c in calls(s)):
